@@ -20,6 +20,9 @@ STRS = ['', ' ', 'a' * 256, 'A' * 1024, 'CUSTOM_X\n', 'VCPU\n', '\x00',
         'CUSTOM_' + 'Z' * 300, 'in:', '!', 'in:,', ',', ':', 'VCPU:',
         ':1', 'VCPU:x', 'VCPU:1,', 'VCPU:-1', 'VCPU:0', 'VCPU:1.5',
         'VCPU:1e3', '\t', '\r\n', '\x7f', '\x1b[31m']
+# JSON-only: escape sequences that are valid JSON text but not unicode text
+# (lone surrogates); json.dumps writes them as \\udXXX escapes
+JSTRS = ['\ud800', 'ok\udfff', '\udc00\ud800', 'CUSTOM_\udbff']
 OTHER = [None, True, False, [], {}, [[]], {'a': {}}, [1, 2], ['x'],
          {'resources': {}}, [None]]
 QBYTES = ['%ff', '%fe%ff', '%zz', '%', '%0', '%00', '%0A', '%c3%28', '%e2%82',
@@ -99,7 +102,7 @@ class Mutator(object):
         elif kind == 'rawnum':
             parent[k] = RawJSON(r.choice(RAWNUM))
         elif kind == 'string':
-            parent[k] = r.choice(STRS)
+            parent[k] = r.choice(STRS + JSTRS)
         elif kind == 'dupval' and isinstance(parent, list):
             parent.append(copy.deepcopy(val))
         elif kind == 'nest':
@@ -112,7 +115,7 @@ class Mutator(object):
             else:
                 parent[k] = [val]
         elif kind == 'keystr' and isinstance(parent, dict):
-            parent[r.choice(STRS)] = parent.pop(k)
+            parent[r.choice(STRS + JSTRS)] = parent.pop(k)
         else:
             parent[k] = r.choice(OTHER)
             kind = 'type'
